@@ -37,12 +37,46 @@ def Owned (h : Heap) : Op → Prop
   | .len x => declared h x
 
 theorem inv_init : Inv {} := by
-  sorry
+  refine ⟨List.nodup_nil, ?_, ?_, rfl⟩
+  · intro x l h; cases h
+  · intro x y lx ly id h; cases h
+
+open Reduino.Lemmas.C09 in
+private theorem inv_iff (h : Heap) : Inv h ↔ InvP h.blocks h.vars := by
+  constructor
+  · rintro ⟨h1, h2, h3, h4⟩
+    refine ⟨h1, ?_, h3, h4⟩
+    intro x l hm
+    have := h2 x l hm
+    unfold WF
+    split <;> simp_all
+  · rintro ⟨h1, h2, h3, h4⟩
+    refine ⟨h1, ?_, h3, h4⟩
+    intro x l hm
+    have := h2 x l hm
+    unfold WF at this
+    split <;> simp_all
 
 /-- one owned operation: no memory error, invariant kept -/
 theorem owned_step_safe (h : Heap) (op : Op) (hi : Inv h) (ho : Owned h op) :
     ∃ o, step h op = .ok o ∧ Inv o.heap := by
-  sorry
+  have hi' := (inv_iff h).1 hi
+  obtain ⟨bs, vs⟩ := h
+  have key : ∀ {op}, (∃ o, step ⟨bs, vs⟩ op = .ok o ∧ Reduino.Lemmas.C09.InvH o.heap) →
+      ∃ o, step ⟨bs, vs⟩ op = .ok o ∧ Inv o.heap := by
+    rintro _ ⟨o, h1, h2⟩
+    exact ⟨o, h1, (inv_iff _).2 h2⟩
+  cases op with
+  | declMake x vals => exact key (Reduino.Lemmas.C09.step_declMake x vals hi' ho)
+  | declCopy y x => exact ho.elim
+  | assignTemp x vals => exact ho.elim
+  | assignVar x y => exact key (Reduino.Lemmas.C09.step_assignVar x y hi' ho.1 ho.2)
+  | append x v => exact key (Reduino.Lemmas.C09.step_append x v hi' ho)
+  | remove x v => exact key (Reduino.Lemmas.C09.step_remove x v hi' ho)
+  | get x i =>
+    obtain ⟨c, hc⟩ := Reduino.Lemmas.C09.step_get x i hi' ho.1 ho.2.1 ho.2.2
+    exact ⟨_, hc, hi⟩
+  | len x => exact ⟨_, rfl, hi⟩
 
 /-- a history of owned operations (each admissible in the state it meets) never errs and keeps the invariant -/
 def OwnedRun : Heap → List Op → Prop
@@ -51,18 +85,34 @@ def OwnedRun : Heap → List Op → Prop
 
 theorem owned_run_safe (h : Heap) (ops : List Op) (hi : Inv h) (ho : OwnedRun h ops) :
     ∃ h', run h ops = .ok h' ∧ Inv h' := by
-  sorry
+  induction ops generalizing h with
+  | nil => exact ⟨h, rfl, hi⟩
+  | cons op rest ih =>
+    obtain ⟨o, hs, hio⟩ := owned_step_safe h op hi ho.1
+    obtain ⟨h', hr, hi'⟩ := ih o.heap hio (ho.2 o hs)
+    refine ⟨h', ?_, hi'⟩
+    simp only [run, hs, bind, Except.bind, hr]
 
 /-- under the invariant the live heap is exactly one block per non-empty list: constant across passes whenever the
     set of non-empty lists is -/
 theorem live_is_nonempty_lists (h : Heap) (hi : Inv h) :
     liveBlocks h = (h.vars.filter (fun p => p.2.size ≠ 0)).length := by
-  sorry
+  obtain ⟨_, h2, _, h4⟩ := hi
+  rw [h4]
+  congr 1
+  apply List.filter_congr
+  intro p hp
+  have := h2 p.1 p.2 hp
+  split at this <;> simp_all
+  omega
 
 /-- `get` returns the cell the index denotes (negative indices count from the end) -/
 theorem get_value (h : Heap) (x : String) (i : Int) (hi : Inv h) (ho : Owned h (.get x i)) :
     ∃ o v, step h (.get x i) = .ok o ∧ o.value = some v ∧ o.heap.blocks = h.blocks ∧ o.heap.vars = h.vars := by
-  sorry
+  have hi' := (inv_iff h).1 hi
+  obtain ⟨bs, vs⟩ := h
+  obtain ⟨c, hc⟩ := Reduino.Lemmas.C09.step_get x i hi' ho.1 ho.2.1 ho.2.2
+  exact ⟨_, c, hc, rfl, rfl, rfl⟩
 
 /-! ### outside the discipline -/
 
@@ -70,28 +120,45 @@ theorem get_value (h : Heap) (x : String) (i : Int) (hi : Inv h) (ho : Owned h (
 theorem alias_use_after_free_counterexample :
     (run {} [.declMake "a" [1, 2, 3], .declCopy "b" "a", .append "a" 1, .get "b" 0]).toOption = none ∧
     (do let h ← run {} [.declMake "a" [1, 2, 3], .declCopy "b" "a", .append "a" 1]; step h (.get "b" 0)).toOption.isNone = true := by
-  sorry
+  decide
 
 /-- … and a second mutation through the alias frees the block twice -/
 theorem alias_double_free_counterexample :
     (match run {} [.declMake "a" [1, 2, 3], .declCopy "b" "a", .append "a" 1, .append "b" 2] with
      | .error e => e = .useAfterFree ∨ e = .doubleFree
      | .ok _ => False) := by
-  sorry
+  have h : run {} [.declMake "a" [1, 2, 3], .declCopy "b" "a", .append "a" 1, .append "b" 2]
+      = .error .useAfterFree := rfl
+  rw [h]; exact Or.inl rfl
 
 /-- re-assignment from a literal leaks the temporary: one more live block per execution (K09b) -/
 theorem temp_leak_counterexample :
     ((run {} [.declMake "a" [1, 2, 3]]).toOption.map liveBlocks = some 1) ∧
     ((run {} [.declMake "a" [1, 2, 3], .assignTemp "a" [4, 5, 6]]).toOption.map liveBlocks = some 2) ∧
     ((run {} [.declMake "a" [1, 2, 3], .assignTemp "a" [4, 5, 6], .assignTemp "a" [4, 5, 6]]).toOption.map liveBlocks = some 3) := by
-  sorry
+  decide
 
 /-- a list declared inside loop() is re-made every pass and never freed -/
 theorem loop_local_leak_counterexample :
     (run {} [.declMake "t" [1], .declMake "t" [1], .declMake "t" [1]]).toOption.map liveBlocks = some 3 := by
-  sorry
+  decide
+
+private theorem ownedRun_cons {h : Heap} {op : Op} {rest : List Op} (o : StepOut) (hs : step h op = .ok o)
+    (ho : Owned h op) (hr : OwnedRun o.heap rest) : OwnedRun h (op :: rest) := by
+  refine ⟨ho, fun o' ho' => ?_⟩
+  rw [hs] at ho'
+  cases ho'
+  exact hr
 
 example : OwnedRun {} [.declMake "a" [1, 2], .append "a" 3, .get "a" (-1), .remove "a" 1] := by
-  sorry
+  refine ownedRun_cons ⟨⟨[⟨true, [1, 2]⟩], [("a", ⟨some 0, 2⟩)]⟩, none⟩ rfl
+    (by simp only [Owned, declared]; decide) ?_
+  refine ownedRun_cons ⟨⟨[⟨false, [1, 2]⟩, ⟨true, [1, 2, 3]⟩], [("a", ⟨some 1, 3⟩)]⟩, none⟩ rfl
+    (by simp only [Owned, declared]; decide) ?_
+  refine ownedRun_cons ⟨⟨[⟨false, [1, 2]⟩, ⟨true, [1, 2, 3]⟩], [("a", ⟨some 1, 3⟩)]⟩, some 3⟩ rfl
+    (by simp only [Owned, declared]; decide) ?_
+  refine ownedRun_cons ⟨⟨[⟨false, [1, 2]⟩, ⟨false, [1, 2, 3]⟩, ⟨true, [2, 3]⟩], [("a", ⟨some 2, 2⟩)]⟩, none⟩ rfl
+    (by simp only [Owned, declared]; decide) ?_
+  trivial
 
 end Reduino.Props.C09
